@@ -544,6 +544,13 @@ C01_ObservationsAgree ==
         (b.id \in DOMAIN seen /\ reqs[Last.r].l > seen[b.id].l) => b.state \in TerminalStates
   /\ \A b \in SendBodies : b.state \in TerminalStates
 
+\* "the same in every response, however requests race": a reply that carries a promise is the level-A answer of
+\* its request at one of the request's linearization points - not a snapshot the request took before a racing
+\* completion and kept (C02_ResponseIsLinearizable for the promise-bearing kinds)
+PromiseBearingKinds == {"ReadPromise", "CreatePromise", "CompletePromise", "CreatePromiseAndTask",
+                        "CreateCallback", "CreateSubscription", "ClaimTask", "SearchPromises"}
+C01_PromiseRepliesLinearizable == (IsRespond /\ reqs[Last.r].kind \in PromiseBearingKinds) => chk.resp = ""
+
 \* --- C03 (the decision tables are inside the level-A operators; here: the commits and
 \*     replies of create / complete requests)
 CreateCompleteKinds == {"CreatePromise", "CreatePromiseAndTask", "CompletePromise"}
